@@ -122,6 +122,60 @@ static Case gen_c18(Chooser& ch) {
   return c;
 }
 
+// ---------------------------------------------------------------- C15: arenas
+// count how many one-block (segment-sized) allocations an empty arena accepts: must equal its block count, then NULL (never an address outside)
+void Exec::op_acap(const Op& op) {
+  int ai = (int)op.num("ar"); if (ai < 0 || ai >= NARENAS || !m.arenas[ai].valid) return; ArenaInfo& A = m.arenas[ai];
+  auto it = m.live.lower_bound((uintptr_t)A.start); if (it != m.live.end() && it->first < (uintptr_t)A.start + A.size) { count(C_EXCLUDED); return; }   // not empty per the model
+  for (int g = 1; g < NHEAPS; g++) if (m.heaps[g].alive) mi_heap_collect(m.heaps[g].h, true);   // release retired pages / empty segments the model cannot see
+  mi_heap_t* hp = mi_heap_new_in_arena(A.id); if (!hp) return;   // (its descriptor lives in the backing heap)
+  size_t blocks = A.size / SEGMENT_SIZE, got = 0; std::vector<void*> ps; size_t n = (size_t)op.num("n", 24*MiB); if (n < 17*MiB || n > 28*MiB) n = 24*MiB;   // plus segment info (and padding in debug builds) must fit one 32 MiB arena block
+  for (size_t i = 0; i < blocks + 3; i++) { uint8_t* p = (uint8_t*)launder(mi_heap_malloc(hp, n)); if (!p) break;
+    if (p < A.start || p + n > A.start + A.size) fail_now("outside-arena", "op#%ld capacity probe: block %p(+%zu) outside arena %d [%p,+%zu)", opi, p, n, ai, A.start, A.size);
+    check_disjoint(p, mi_usable_size(p), -1, "acap"); for (void* q : ps) if ((uint8_t*)q < p + n && p < (uint8_t*)q + n) fail_now("overlap", "op#%ld capacity probe: blocks %p and %p overlap", opi, p, q);
+    p[0] = 1; p[n - 1] = 2; ps.push_back(p); got++; }
+  for (void* p : ps) mi_free(p);
+  mi_heap_delete(hp);
+  flag(F_ARENA_CAP);
+  // a non-exclusive arena may also hold segments of other heaps that the model cannot see (e.g. the one holding heap descriptors): only an upper bound there
+  if (got > blocks || (A.exclusive && got != blocks)) fail_now("arena-capacity", "op#%ld an empty arena of %zu blocks (area %zu bytes) accepted %zu one-block allocations of %zu bytes", opi, blocks, A.size, got, n);
+}
+
+static void c15_event(int kind, void* addr, size_t len, int, int failed) {
+  Exec* e = g_exec; if (!e || failed) return; if (kind == VF_MAP) return;
+  uintptr_t lo = (uintptr_t)addr, hi = lo + len;
+  for (int i = 0; i < NARENAS; i++) { ArenaInfo& A = e->m.arenas[i]; if (!A.outer) continue;
+    uintptr_t olo = (uintptr_t)A.outer, ohi = olo + A.outer_size, glo = (uintptr_t)A.given, ghi = glo + A.given_size;
+    if (lo < ohi && olo < hi && (lo < glo || hi > ghi)) fail_now("outside-managed-region", "op#%ld OS call kind %d on [%p,+%zu) touches the caller's memory outside the region [%p,+%zu) handed to mi_manage_os_memory_ex", e->opi, kind, addr, len, A.given, A.given_size); }
+  purge_event(kind, addr, len, 0, failed);
+}
+
+static Case gen_c15(Chooser& ch) {
+  Profile pf; pf.min_ops = 15; pf.max_ops = 90; pf.p_heap_api = 75; pf.w_heap = 5; pf.w_talloc = 3; pf.w_tfree = 2; pf.w_visit = 1; pf.big_ok = false; pf.arenas = false; pf.w_fill = 9; pf.w_churn = 3;
+  Gen g(ch, pf);
+  int na = (int)ch.range(1, 2);
+  for (int i = 0; i < na; i++) {
+    bool ex = ch.chance(2, 3); size_t size = (size_t)ch.range(2, 6) * 32*MiB; Op op("arena"); op.u("i", (uint64_t)i).u("excl", ex).u("commit", ch.chance(1, 4));
+    if (ch.chance(1, 2)) { static const std::vector<size_t> mis = { 0, 4*KiB, 64*KiB, 1*MiB, 31*MiB }; static const std::vector<size_t> odd = { 0, 4*KiB, 1*MiB, 16*MiB, 31*MiB + 4*KiB }; op.s("how", "manage").u("mis", ch.of(mis)); size += ch.of(odd); if (ch.chance(1, 10)) size = (size_t)ch.range(1, 40) * MiB; }
+    op.u("size", size); g.out.push_back(op); g.arena_valid[i] = true; g.arena_excl[i] = ex;
+    if (ch.chance(1, 3)) g.out.push_back(Op("acap").u("ar", (uint64_t)i).u("n", (size_t)ch.range(17, 31) * MiB));
+    int h = 2 + i; g.out.push_back(Op("hnew").u("h", (uint64_t)h).s("kind", ch.chance(1, 4) ? "ex" : "arena").u("ar", (uint64_t)i).u("d", 0).u("tag", 0)); g.heaps[h].alive = true; g.heaps[h].arena = i;
+  }
+  if (ch.chance(1, 2)) { g.out.push_back(Op("hnew").u("h", 5).s("kind", "new")); g.heaps[5].alive = true; g.heaps[5].destroyable = true; }
+  int nops = (int)ch.range(15, 90);
+  while ((int)g.out.size() < nops) {
+    unsigned k = (unsigned)ch.pick(12);
+    if (k == 0) {   // exhaust a bound heap: segment-sized blocks until NULL, later freed by rfree
+      int h = 2 + (int)ch.pick((size_t)na); size_t n = (size_t)ch.range(17, 31) * MiB; int kk = 10; if (g.next_slot + kk > NSLOTS) continue; int s0 = g.next_slot; g.next_slot += kk;
+      g.out.push_back(Op("fill").u("s", (uint64_t)s0).u("k", (uint64_t)kk).s("f", "malloc").u("n", n).u("h", (uint64_t)h).u("nt", 1)); for (int i = 0; i < kk; i++) g.note_alloc(s0 + i, 0, 1, 0, false, h); g.groups.push_back({ s0, kk, n });
+    } else if (k == 1) { int ai = (int)ch.pick((size_t)na); size_t kk = ch.range(1, 30); if (g.next_slot + (int)kk > NSLOTS) continue; int s0 = g.next_slot; g.next_slot += (int)kk;
+      g.out.push_back(Op("talloc").u("s", (uint64_t)s0).u("k", kk).u("n", ch.chance(1, 2) ? ch.of(g_classes) : ch.range(1, 300*KiB)).u("ar", (uint64_t)ai)); for (size_t i = 0; i < kk; i++) g.note_alloc(s0 + (int)i, 0, 1, 0, false, -1); g.groups.push_back({ s0, (int)kk, 0 });
+    } else if (k == 2 && ch.chance(1, 3)) { g.out.push_back(Op("acap").u("ar", (uint64_t)ch.pick((size_t)na)));
+    } else g.step();
+  }
+  return g.out;
+}
+
 // ---------------------------------------------------------------- footprint measurement (C07, C11)
 struct Footprint { size_t mapped = 0, regions = 0, resident = 0, big_outside = 0, small_outside = 0, arena_resident = 0; uintptr_t first_big = 0; size_t first_big_len = 0; };
 static Footprint measure_footprint() {
@@ -282,7 +336,8 @@ static void exec_c11(const Case& c, Exec& ex) {
 static bool generate_special(const std::string& mode, Chooser& ch, uint64_t, Case& out) {
   if (mode == "C11") { out = gen_c11(ch); return true; }
   if (mode == "C18") { out = gen_c18(ch); return true; }
-  if (mode == "C07") { out = gen_c07_workload(ch); return true; }   // the fault position is filled in by HistHarness::generate
+  if (mode == "C07") { out = gen_c07_workload(ch); return true; }
+  if (mode == "C15") { out = gen_c15(ch); return true; }   // the fault position is filled in by HistHarness::generate
   return false;
 }
 static bool execute_special(const std::string& mode, const Case& c, Exec& ex) {
